@@ -172,6 +172,7 @@ type relayRig struct {
 	flushSeq    int
 	upRules     [][2]string // header_upstream
 	downRules   [][2]string
+	regexRules  bool // three-argument rules: header_downstream X-Dup (regexp -> replacement), header_upstream X-A
 	transparent bool
 	keepalive0  bool
 	faults      bool
@@ -523,6 +524,7 @@ func runRelayIn(c *sim.Ctl, mode string) {
 			r.downRules = append(r.downRules, [2]string{"+Link", "</two.js>; rel=preload"})
 		}
 	}
+	r.regexRules = pick(25)
 	var b strings.Builder
 	b.WriteString("http://r.test:0 {\n\tbind 127.0.0.1\n\tsimnet v0\n")
 	if r.limit > 0 {
@@ -555,6 +557,10 @@ func runRelayIn(c *sim.Ctl, mode string) {
 		} else {
 			fmt.Fprintf(&b, "\t\theader_downstream %s %q\n", d[0], d[1])
 		}
+	}
+	if r.regexRules {
+		// rewriting rules apply to every occurrence of the field
+		b.WriteString("\t\theader_downstream X-Dup ^(f|s) R-$1\n\t\theader_upstream X-A o O\n")
 	}
 	b.WriteString("\t}\n}\n")
 	text := b.String()
@@ -670,6 +676,10 @@ func (r *relayRig) addReq(i int) {
 			// field names are case-insensitive, in Connection as everywhere
 			q.hdrs = append(q.hdrs, [2]string{"Connection", []string{"x-hop3", "X-HOP3", "keep-alive, x-hOp3"}[st.Draw(3)]}, [2]string{"X-Hop3", "named-in-another-letter-case"})
 		}
+	}
+	if pick(25) {
+		// the client wants ITS connection closed after the response; that is between client and proxy
+		q.hdrs = append(q.hdrs, [2]string{"Connection", "close"})
 	}
 	if q.method == "POST" || q.method == "PUT" || q.method == "PATCH" {
 		bl := []int{0, 1, 4095, 4096, 4097, 32767, 32768, 32769, 65536}[st.Draw(9)]
@@ -926,6 +936,11 @@ func (r *relayRig) judge() {
 					want[http.CanonicalHeaderKey(u[0])] = []string{q.expand(u[1])}
 				}
 			}
+			if r.regexRules {
+				for i, v := range want["X-A"] {
+					want["X-A"][i] = strings.ReplaceAll(v, "o", "O")
+				}
+			}
 			got := multiset(g.hdrs, nil)
 			for k, wv := range want {
 				gv := got[k]
@@ -934,7 +949,7 @@ func (r *relayRig) judge() {
 				}
 			}
 			for k, gv := range got {
-				if k == "Connection" && strings.Join(gv, ",") == "close" {
+				if k == "Connection" && strings.Join(gv, ",") == "close" && r.keepalive0 {
 					continue // the transport's own, when keep-alive towards the backend is disabled
 				}
 				if isHop(k, connNamed) && k != "Transfer-Encoding" {
@@ -1014,6 +1029,13 @@ func (r *relayRig) judge() {
 				want[k] = append(want[k], q.expand(d[1]))
 			default:
 				want[http.CanonicalHeaderKey(d[0])] = []string{q.expand(d[1])}
+			}
+		}
+		if r.regexRules {
+			for i, v := range want["X-Dup"] {
+				if strings.HasPrefix(v, "f") || strings.HasPrefix(v, "s") {
+					want["X-Dup"][i] = "R-" + v
+				}
 			}
 		}
 		var keys []string
